@@ -186,6 +186,80 @@ theorem dyn_no_panic_empty (cfg : Cfg) (ops : List Op) (ho : ∀ op ∈ ops, OpO
 /-- The source carries the F119 guard. -/
 theorem dyn_cursor_guard_present : Gen.ListFacts.dynCursorGuard = true := by decide
 
+/-- The full visibility statement: after ANY history (from the initial state, gap ≥ 0, a fixed
+    builder) that leaves no pending scroll, a selection change to an existing item of height ≥ 1
+    followed by a `Draw` into a viewport of height ≥ 1 shows the selected item: its rows intersect
+    the viewport, and it is fully inside when it fits.  NOT proved: it needs the invariant
+    `Settled` to be preserved by every reachable `Draw` (true on everything the harness explored —
+    the oracle evaluates exactly this statement on the real code — but the proof over
+    `insertChildren`/`retop` for all histories is open).  Proved: `dyn_cursor_visible_partial`. -/
+def dyn_cursor_visible_full : Prop :=
+  ∀ (cfg : Cfg) (hs : List Nat) (ops : List Op) (s : St) (c W H hc : Nat),
+    0 ≤ cfg.gap → W ≠ 65535 → H ≠ 65535 → 1 ≤ H → (∀ op ∈ ops, OpOk op) →
+    run Gen.ListFacts.dynCursorGuard cfg hs init ops = .ok s → s.pending = 0 →
+    hs[c]? = some hc → 1 ≤ hc → c < 2 ^ 63 →
+    ∃ s' cs, draw Gen.ListFacts.dynCursorGuard cfg hs (setCursor s c) W H = .ok (s', cs) ∧
+      ∃ ch ∈ cs, ch.idx = c ∧ ch.height = hc ∧ Visible H ch
+
+/-- **Selected item visible (partial: from a settled scroll state)** — for every builder, every
+    gap ≥ 0, every viewport height ≥ 1: from any state that has no pending scroll and whose line
+    offset lies within its top item (`Settled`), `SetCursor(c)` to an existing item of height ≥ 1
+    followed by `Draw` does not panic and returns a child for item `c` whose rows intersect the
+    viewport and which lies fully inside the viewport when it fits.  Extra hypothesis compared with
+    `dyn_cursor_visible_full`: `Settled hs s` is assumed instead of derived from the history. -/
+theorem dyn_cursor_visible_partial (cfg : Cfg) (hs : List Nat) (s : St) (c W H hc : Nat)
+    (hgap : 0 ≤ cfg.gap) (hW : W ≠ 65535) (hH : H ≠ 65535) (hH1 : 1 ≤ H)
+    (hs0 : Settled hs s) (hcur : hs[c]? = some hc) (hc1 : 1 ≤ hc) (hc63 : c < 2 ^ 63) :
+    ∃ s' cs, draw Gen.ListFacts.dynCursorGuard cfg hs (setCursor s c) W H = .ok (s', cs) ∧
+      ∃ ch ∈ cs, ch.idx = c ∧ ch.height = hc ∧ Visible H ch := by
+  rw [dyn_cursor_guard_present]
+  exact ensureScroll_draw_visible cfg hs s c W H hc hgap hW hH hH1 hs0 hcur hc1 hc63
+
+/-- The same for `NextItem` and `PrevItem` (when they move the cursor, i.e. return a command). -/
+theorem dyn_next_prev_visible_partial (cfg : Cfg) (hs : List Nat) (s : St) (W H : Nat)
+    (hgap : 0 ≤ cfg.gap) (hW : W ≠ 65535) (hH : H ≠ 65535) (hH1 : 1 ≤ H)
+    (hs0 : Settled hs s) (hpos : ∀ h ∈ hs, 1 ≤ h) (hlen : hs.length < 2 ^ 63) (hcu : s.cursor < 2 ^ 63)
+    (s1 : St) (hmove : (nextItem hs s = (s1, true)) ∨ (prevItem hs s = (s1, true))) :
+    ∃ s' cs, draw Gen.ListFacts.dynCursorGuard cfg hs s1 W H = .ok (s', cs) ∧
+      ∃ ch ∈ cs, ch.idx = s1.cursor ∧ Visible H ch := by
+  rw [dyn_cursor_guard_present]
+  have key : ∀ c hc, hs[c]? = some hc → s1 = ensureScroll { s with cursor := c } → s1.cursor = c →
+      ∃ s' cs, draw true cfg hs s1 W H = .ok (s', cs) ∧ ∃ ch ∈ cs, ch.idx = s1.cursor ∧ Visible H ch := by
+    intro c hc hcur e1 e2
+    have hc1 : 1 ≤ hc := hpos hc (List.mem_of_getElem? hcur)
+    have hc63 : c < 2 ^ 63 := Nat.lt_trans (getElem?_lt hcur) hlen
+    obtain ⟨s', cs, hd, ch, hm, hi, _, hv⟩ := ensureScroll_draw_visible cfg hs s c W H hc hgap hW hH hH1 hs0 hcur hc1 hc63
+    exact ⟨s', cs, by rw [e1]; exact hd, ch, hm, by rw [e2]; exact hi, hv⟩
+  have cur_es : ∀ c, (ensureScroll { s with cursor := c }).cursor = c := by
+    intro c; unfold ensureScroll; simp only []; split <;> rfl
+  rcases hmove with h | h
+  · have hu : uadd s.cursor 1 = s.cursor + 1 := by unfold uadd U; omega
+    unfold nextItem at h
+    rw [hu] at h
+    cases hb : builder hs (s.cursor + 1) with
+    | none => rw [hb] at h; cases h
+    | some hc =>
+      rw [hb] at h
+      have e : s1 = ensureScroll { s with cursor := s.cursor + 1 } := (Prod.mk.inj h).1.symm
+      exact key _ hc hb e (by rw [e]; exact cur_es _)
+  · unfold prevItem at h
+    by_cases h0 : s.cursor = 0
+    · rw [if_pos h0] at h; cases h
+    · rw [if_neg h0] at h
+      have hu : usub s.cursor 1 = s.cursor - 1 := usub_le (by omega) hcu
+      rw [hu] at h
+      cases hb : builder hs (s.cursor - 1) with
+      | none => rw [hb] at h; cases h
+      | some hc =>
+        rw [hb] at h
+        have e : s1 = ensureScroll { s with cursor := s.cursor - 1 } := (Prod.mk.inj h).1.symm
+        exact key _ hc hb e (by rw [e]; exact cur_es _)
+
+/-- Non-vacuity: a settled state (top item 1 scrolled by one row), cursor moved to item 3. -/
+example : (match draw true ⟨0, false⟩ [2, 3, 1, 2] (setCursor ⟨1, 1, 1, 0, false⟩ 3) 4 3 with
+    | .ok (_, cs) => cs.map (fun c => (c.idx, c.row, c.height)) == [(1, -3, 3), (2, 0, 1), (3, 1, 2)]
+    | .error _ => false) = true := by decide
+
 end Dyn
 
 end VaxisModel.Props.C19
